@@ -72,6 +72,10 @@ class Geometry:
             r = r_in + (np.arange(n) + 0.5) * self.dr
             self.r_lo = r_in + np.arange(n) * self.dr  # inner faces
             self.r_hi = r_in + (np.arange(n) + 1.0) * self.dr  # outer faces
+            # "r_l = r - dr/2" determines the inner face only up to eps*r: relative uncertainty
+            # of r_l in units of eps (the innermost face of a hole-free grid is exactly 0)
+            with np.errstate(divide="ignore", invalid="ignore"):
+                self.rel_lo = np.where(self.r_lo > 0, 4.0 * r / np.where(self.r_lo > 0, self.r_lo, 1.0), 0.0)
             if self.family == "cyl":  # broadcast over z
                 r = r[:, None]
             self.r = r
@@ -110,6 +114,10 @@ class Lin:
 
     def __truediv__(self, c):
         return Lin(self.v / c, self.b / np.abs(c))
+
+    def times(self, c, rel=0.0):
+        """multiply with a coefficient that is itself only known up to ``rel * eps`` relative"""
+        return Lin(self.v * c, self.b * np.abs(c) * (1.0 + np.asarray(rel) / 64.0))
 
     def square(self):
         """plain (not absolute) square, as the documented ``(d u)**2``"""
@@ -237,7 +245,7 @@ def sph_conservative(op, o):
 def _flux(g, hi: Lin, lo: Lin):
     """(r_h^2 hi - r_l^2 lo) / V  with the shell volume V = (r_h^3 - r_l^3) / 3"""
     vol = (g.r_hi**3 - g.r_lo**3) / 3
-    return hi * (g.r_hi**2 / vol) - lo * (g.r_lo**2 / vol)
+    return hi.times(g.r_hi**2 / vol, 8.0) - lo.times(g.r_lo**2 / vol, 2 * g.rel_lo)
 
 
 def _sph(g, op, o, a):
@@ -283,7 +291,7 @@ def _sph(g, op, o, a):
         if sph_conservative(op, o):
             vol = (g.r_hi**3 - g.r_lo**3) / 3
             out_r = _flux(g, face_hi(a[0, 0]), face_lo(a[0, 0])) \
-                - ctr(a[2, 2], g) * ((g.r_hi**2 - g.r_lo**2) / vol)
+                - ctr(a[2, 2], g).times((g.r_hi**2 - g.r_lo**2) / vol, 8.0)
             return [out_r, zero_like(out_r), zero_like(out_r)]
         return [d1(a[0, 0], g, 0) + (ctr(a[0, 0], g) - ctr(a[2, 2], g)) * 2 / r,
                 d1(a[1, 0], g, 0) + ctr(a[1, 0], g) * 2 / r,
@@ -294,10 +302,10 @@ def _sph(g, op, o, a):
             # flux of w = (div T)_r = T_rr' + 2 (T_rr - T_pp)/r through the faces;
             # r^2 w = r^2 T_rr' + 2 r (T_rr - T_pp)  (no division by the face radius)
             vol = (g.r_hi**3 - g.r_lo**3) / 3
-            hi = ((up(t_rr) - ctr(t_rr, g)) / dr) * (g.r_hi**2 / vol) \
-                + (face_hi(t_rr) - face_hi(t_pp)) * (2 * g.r_hi / vol)
-            lo = ((ctr(t_rr, g) - dn(t_rr)) / dr) * (g.r_lo**2 / vol) \
-                + (face_lo(t_rr) - face_lo(t_pp)) * (2 * g.r_lo / vol)
+            hi = ((up(t_rr) - ctr(t_rr, g)) / dr).times(g.r_hi**2 / vol, 8.0) \
+                + (face_hi(t_rr) - face_hi(t_pp)).times(2 * g.r_hi / vol, 8.0)
+            lo = ((ctr(t_rr, g) - dn(t_rr)) / dr).times(g.r_lo**2 / vol, 2 * g.rel_lo) \
+                + (face_lo(t_rr) - face_lo(t_pp)).times(2 * g.r_lo / vol, g.rel_lo)
             return hi - lo
         return d2(t_rr, g, 0) + d1(t_rr, g, 0) * 2 / r \
             + (d1(t_rr, g, 0) - d1(t_pp, g, 0)) * 2 / r \
